@@ -176,7 +176,19 @@ def run_case(c):
             pick = r.sample(addrs, k) if k else []
         for a in pick:
             w = store.get(a)
-            w[r.randrange(wb)] ^= 1 << r.randrange(8)
+            # one flipped bit per corrupted word; the position is biased to the ends of the word and to the seams of the
+            # 31-bit generator words replicated across a wide port (where a lane-wise compare could lose bits)
+            x = r.random()
+            nbits = 8 * wb
+            if x < 0.3:
+                bit = nbits - 1 - r.randrange(min(nbits, max(1, nbits % 31 or 1)))
+            elif x < 0.45:
+                bit = min(nbits - 1, 31 * r.randrange(1, nbits // 31 + 1) - r.randrange(2)) if nbits >= 31 else r.randrange(nbits)
+            elif x < 0.55:
+                bit = 0
+            else:
+                bit = r.randrange(nbits)
+            w[bit // 8] ^= 1 << (bit % 8)
         res["corrupted"] = pick
         ok = yield from run_core(dut.chk)
         res["chk_done"] = ok
